@@ -387,10 +387,8 @@ func invoke(input OmegaInput) (output OmegaOutput) {
 			pvmLogger.Errorf("host-call function \"invoke\" decode register:%d error : %v", i-1, err)
 		}
 	}
-	// psi preprocess
-	tmpProgram := Program{
-		InstructionData: input.Addition.IntegratedPVMMap[n].ProgramCode,
-	}
+	// psi preprocess: m[n]_p is the program blob; the machine runs deblob(p) = (code, bitmask, jump table)
+	tmpProgram, deblobExit := DeBlobProgramCode(input.Addition.IntegratedPVMMap[n].ProgramCode)
 	tempMemory := input.Addition.IntegratedPVMMap[n].Memory
 	// wrap m[n]_p (program),  w (registers),  m[n]_u (memory),   g (gas) into NewHost
 	tempHost := NewHost(&tmpProgram, w, &tempMemory, Gas(g), HostCallArgs{}, nil)
@@ -398,7 +396,12 @@ func invoke(input OmegaInput) (output OmegaOutput) {
 	var c ExitReason
 	var pcPrime ProgramCounter
 
-	c, pcPrime = tempHost.Interpreter.SingleStepInvoke(input.Addition.IntegratedPVMMap[n].PC)
+	if deblobExit != ExitContinue {
+		// (A.1) a blob that does not deblob panics without executing anything
+		c, pcPrime = ExitPanic, 0
+	} else {
+		c, pcPrime = tempHost.Interpreter.SingleStepInvoke(input.Addition.IntegratedPVMMap[n].PC)
+	}
 
 	// mu* = mu
 	encoder := types.NewEncoder()
@@ -416,7 +419,7 @@ func invoke(input OmegaInput) (output OmegaOutput) {
 	tmp := input.Addition.IntegratedPVMMap[n]
 	tmp.Memory = *tempHost.Interpreter.Memory
 	if c.GetReasonType() == HOST_CALL {
-		tmp.PC = pcPrime + 1 + ProgramCounter(skip(int(pcPrime), input.Addition.Program.Bitmasks))
+		tmp.PC = pcPrime + 1 + ProgramCounter(skip(int(pcPrime), tmpProgram.Bitmasks))
 	} else {
 		tmp.PC = pcPrime
 	}
